@@ -1,6 +1,7 @@
 //! pvh_pipeline -- harness binary of the `pipeline` group (C02 C03 C13 C18).
 //!
-//!   gen    <out.ndjson> <seed> <n_mut> <n_soup> <n_nest> <n_fault> <n_multi>
+//!   gen    <out.ndjson> <seed> <n_mut> <n_soup> <n_nest> <n_fault> <n_multi> [<n_line> <n_struct>]
+//!   render-flat <items.ndjson> <cases.ndjson>     statement-placement bodies -> cases
 //!   worker [--ir-dir D]              cases on stdin, events on stdout (flushed per event)
 //!   run    <cases.ndjson> <events.ndjson> [--ir-dir D] [--timeout S] [--batch N]
 //!   fresh  <cases.ndjson> <runs.ndjson> <k> [--ir-dir D]     every case k times, one process each
@@ -463,13 +464,33 @@ fn main() {
                 usage();
             }
             let root = std::env::var("PENNE_REPO").unwrap_or_else(|_| "/repo".to_string());
-            let n: Vec<usize> = args[3..8].iter().map(|x| x.parse().expect("count")).collect();
-            let cases = r#gen::generate(std::path::Path::new(&root), args[2].parse().expect("seed"), n[0], n[1], n[2], n[3], n[4]);
+            let mut n: Vec<usize> = args[3..].iter().map(|x| x.parse().expect("count")).collect();
+            n.resize(7, 0);
+            let cases = r#gen::generate(std::path::Path::new(&root), args[2].parse().expect("seed"), n[0], n[1], n[2], n[3], n[4], n[5], n[6]);
             let mut f = std::io::BufWriter::new(std::fs::File::create(&args[1]).expect("create"));
             for c in &cases {
                 writeln!(f, "{c}").unwrap();
             }
             println!("{}", json!({"cases": cases.len()}));
+        }
+        "render-flat" => {
+            // statement-placement bodies (token kinds of spec/Placement.tla, already turned into items):
+            // {"id", "b": [items]} -> a case whose single module is the rendered function
+            if args.len() < 3 {
+                usage();
+            }
+            let mut f = std::io::BufWriter::new(std::fs::File::create(&args[2]).expect("create"));
+            for line in pvh::util::read_lines(&args[1]) {
+                let v: Value = serde_json::from_str(&line).expect("json");
+                let items: Vec<pvh::flat::Item> = v["b"]
+                    .as_array()
+                    .map(|a| a.iter().map(|x| pvh::flat::Item::parse(x.as_str().unwrap_or(""))).collect())
+                    .unwrap_or_default();
+                let r = pvh::flat::render(&items, &[], &[]);
+                let origin: Vec<String> = items.iter().map(|i| i.to_string()).collect();
+                writeln!(f, "{}", json!({"id": v["id"], "kind": "place", "wasm": false, "origin": origin.join(" "),
+                                         "mods": [{"name": "place.pn", "src": r.source}]})).unwrap();
+            }
         }
         "worker" => worker(&args[1..]),
         "run" => run(&args[1..]),
